@@ -238,7 +238,11 @@ func (c *Ctx) Ob(key string, ok bool, pos token.Pos, format string, args ...inte
 	if !ok {
 		st = Violated
 	}
-	c.add(key, st, pos, fmt.Sprintf(format, args...))
+	detail := fmt.Sprintf(format, args...)
+	if ok {
+		detail = ""
+	}
+	c.add(key, st, pos, detail)
 	return ok
 }
 
